@@ -130,8 +130,8 @@ def r7_3(cx):
             and is_call(rng.args[1], 'Backref::len')
         if ok:
             d0, d1 = arr.args[0].strip(), arr.args[1].strip()
-            ok = d0.kind == 'binop' and d0.op == 'Rem' and d0.a.strip().kind == 'param' and named_const(d0.b, 'RADIX') and \
-                d1.kind == 'binop' and d1.op == 'Div' and d1.a.strip().kind == 'param' and named_const(d1.b, 'RADIX') and arr.args[2].is_const_int(0)
+            ok = d0.kind == 'binop' and d0.op == 'Rem' and d0.a.strip().kind == 'param' and const_is(prog, d0.b, 'hcobs::RADIX') and \
+                d1.kind == 'binop' and d1.op == 'Div' and d1.a.strip().kind == 'param' and const_is(prog, d1.b, 'hcobs::RADIX') and arr.args[2].is_const_int(0)
     cx.check(ok, 'encoder-digits', eh, bf[0].loc(), 'backfill header[0..backref.len()] with header = [size % RADIX, size / RADIX, 0]',
              fail_detail='the header bytes are %s' % show(src)[:200])
     mh = prog.fn('hcobs::decoder::MidHeader::decode')
@@ -141,11 +141,10 @@ def r7_3(cx):
         rel = as_relation((e, True)) if e is not None else None
         if rel and rel[0] == 'Gt' and _limit_field(rel[2]) == 'max_subsequent_size':
             s = rel[1].strip()
-            if s.kind == 'binop' and s.op == 'Add':
-                a, m = s.a.strip(), s.b.strip()
-                if m.kind == 'binop' and m.op == 'Mul' and named_const(m.b, 'RADIX') and m.a.strip().kind == 'proj' and m.a.strip().op == 'index' \
-                        and a.kind == 'proj' and a.info.get('n') == 'initial_byte':
-                    okd = True
+            for a, m in commuted(s, 'Add'):
+                for x, k in commuted(m, 'Mul'):
+                    if const_is(prog, k, 'hcobs::RADIX') and x.kind == 'proj' and x.op == 'index' and a.kind == 'proj' and a.info.get('n') == 'initial_byte':
+                        okd = True
     cx.check(okd, 'decoder-recombine', mh, None, 'size = initial_byte + second_byte * RADIX', fail_detail='MidHeader does not recombine first + second * RADIX')
     ins = prog.fn('hcobs::decoder::InitialState::decode')
     lim = None
@@ -212,8 +211,8 @@ def r7_4(cx):
     D = 'hcobs::decoder::'
     ins, bc, mh = prog.fn(D + 'InitialState::decode'), prog.fn(D + 'BeforeChunk::decode'), prog.fn(D + 'MidHeader::decode')
     _guard(cx, ins, 'InvalidInitialSizeHeader', lambda r: r[0] == 'Gt' and _is_byte0(r[1]) and _limit_field(r[2]) == 'max_initial_size', 'input[0] > max_initial_size')
-    _guard(cx, bc, 'InvalidHeaderByte', lambda r: r[0] == 'Ge' and _is_byte0(r[1]) and named_const(r[2], 'RADIX'), 'input[0] >= RADIX')
-    _guard(cx, mh, 'InvalidHeaderByte', lambda r: r[0] == 'Ge' and _is_byte0(r[1]) and named_const(r[2], 'RADIX'), 'input[0] >= RADIX')
+    _guard(cx, bc, 'InvalidHeaderByte', lambda r: r[0] == 'Ge' and _is_byte0(r[1]) and const_is(prog, r[2], 'hcobs::RADIX'), 'input[0] >= RADIX')
+    _guard(cx, mh, 'InvalidHeaderByte', lambda r: r[0] == 'Ge' and _is_byte0(r[1]) and const_is(prog, r[2], 'hcobs::RADIX'), 'input[0] >= RADIX')
     _guard(cx, mh, 'InvalidSubsequentSizeHeader', lambda r: r[0] == 'Gt' and r[1].strip().kind == 'binop' and r[1].strip().op == 'Add'
            and _limit_field(r[2]) == 'max_subsequent_size', 'size > max_subsequent_size')
     # flags and transitions in InitialState / MidHeader
@@ -260,7 +259,17 @@ def r7_4(cx):
         eq = any(r and r[0] == 'Eq' for r in r_bc) and any(r and r[0] == 'Ge' and r[1].strip().kind == 'param' for r in r_bc)
         flag = ss['BeforeChunk'][0][1].args[0].strip().args[0].strip()
         ok_u = lt and eq and flag.kind == 'proj' and flag.info.get('n') == 'terminate_with_stuff_sequence'
-    cx.check(ok_u, 'in-chunk-update', upd, None, 'consumed < remaining stays InChunk; consumed == remaining (asserted) goes to BeforeChunk{flag}',
+    if ok_u:
+        nr = ss['InChunk'][0][1]
+        rem = [pos for pos, st in upd.statements() if st['k'] == 'assign' and st['pl']['p'] and st['pl']['p'][-1].get('n') == 'remaining']
+        okrem = False
+        for pos in rem:
+            v = upd.rvalue_expr(upd.blocks[pos.bb]['st'][pos.idx]['rv'])
+            for n in v.walk():
+                if n.kind == 'binop' and n.op == 'Sub' and n.a.has_call('NonZero::get') and any(x.kind == 'param' and x.info['i'] == 2 for x in n.b.walk()):
+                    okrem = True
+        ok_u = okrem
+    cx.check(ok_u, 'in-chunk-update', upd, None, 'consumed < remaining stays InChunk with remaining -= consumed; consumed == remaining (asserted) goes to BeforeChunk{flag}',
              fail_detail='InChunk::update does not leave the chunk exactly when remaining == consumed with the stored flag')
     for nm in ('decode_borrow', 'decode_copy'):
         f = prog.fn(D + 'InChunk::' + nm)
@@ -301,7 +310,7 @@ def r7_4(cx):
         cx.check(ok_d, 'dispatch:' + nm, f, None, 'one arm per DecoderState variant (%s)' % ', '.join(vnames), fail_detail='the dispatch does not have a separate arm for each of %s' % vnames)
     a, b2 = prog.fn(D + 'DecoderState::decode_borrow'), prog.fn(D + 'DecoderState::decode_copy')
     sub = {'decode_borrow': 'decode_X', 'decode_copy': 'decode_X'}
-    dd = diff(skeleton(a, sub), skeleton(b2, sub))
+    dd = diff(skeleton(a, sub, canonical=True), skeleton(b2, sub, canonical=True))
     cx.check(dd is None, 'dispatch-twins', a, None, 'decode_borrow and decode_copy have the same skeleton', fail_detail='decode_borrow / decode_copy diverge at %s' % (dd,))
 
 
